@@ -1993,7 +1993,7 @@ WEIGHTOBJ_STRATA = (
         'sparse/notimpl', 'inner-norm-dist/notimpl', 'reject/object', 'reject/ndim',
         'reject/nonsquare', 'reject/sparse-exponent')] +
     ['weightobj/array/is_valid/' + t for t in ('positive', 'nonpositive')] +
-    ['weightobj/is_weighted/' + t for t in ('tensor', 'pspace')] +
+    ['weightobj/is_weighted/' + t for t in ('tensor', 'pspace', 'discr')] +
     ['weightobj/space-eq-hash/' + t for t in ('tensor', 'pspace', 'discr')] +
     ['weightobj/zero/' + t for t in ('tensor', 'pspace', 'discr')] +
     ['weightobj/partition/cell_sizes_vecs', 'weightobj/partition/nodes_on_bdry'])
@@ -2248,6 +2248,14 @@ def run_weightobj(ctx, wseed=None):
         if r != ('ok', wt not in (None, 1.0)):
             bad('is_weighted pspace :: weighting={}'.format(wt), r)
     ctx.hit('weightobj/is_weighted/pspace')
+    # discretized: unit cells (cell volume exactly 1, no partial boundary cells) <=> unweighted
+    r = outcome(lambda: (lambda s1, s2: (bool(s1.is_weighted), bool(s2.is_weighted),
+                                         Fraction(float(s1.inner(s1.element(X), s1.element(Y)))),
+                                         Fraction(float(s2.inner(s2.element(X), s2.element(Y))))))(
+        odl.uniform_discr(0, n, n), odl.uniform_discr(0, 2 * n, n)))
+    if r != ('ok', (False, True, plain, 2 * plain)):
+        bad('is_weighted discr :: unit cells / cells of volume 2', r)
+    ctx.hit('weightobj/is_weighted/discr')
 
     # ---- 6. spaces: equal construction => ==, equal hash, same inner/norm/dist; zero()
     shared = np.asarray(arr)
